@@ -491,7 +491,11 @@ static void gen_c02(vf::Src& src, Case& c)
         {
             int k = src.coin(70) ? (src.coin(95) ? src.irange(1, 5) : src.irange(100, 300)) : 0;
             e.want_count = k ? k : (e.has_default ? e.tdef : 0);
-            if (k == 0 && e.reversible && src.coin(40))
+            // (not when a declared option is called "no-<this toggle>": that spelling belongs to it)
+            bool no_name_taken = false;
+            for (auto& other : c.e)
+                no_name_taken |= other.name == "no-" + e.name;
+            if (k == 0 && e.reversible && !no_name_taken && src.coin(40))
             {
                 e.want_count = 0;
                 streams.push_back({ Item{ { "--no-" + e.name } } });
